@@ -1,10 +1,10 @@
 (* driver.ml (C10) — line protocol for the EVM oracle; parsing and printing only.
    input :  ALU <OP> a b c
-            RUN gas static origin gasprice coinbase timestamp number difficulty gaslimit chainid basefee to input
-                | C addr code C addr code .. | S addr key val S addr key val ..
+            RUN gas static origin gasprice coinbase timestamp number difficulty gaslimit chainid basefee to value input mastertopic
+                | A addr balance code master .. | S addr key val .. | newaddr newaddr .. | H preimage hash ..
             numbers in hex, byte strings in hex ("-" = empty)
    output:  ALU -> result
-            RUN -> class data gasleft refund | L addr t,t,.. data L .. | S addr key val S ..
+            RUN -> class data gasleft refund | L addr t,t,.. data .. | S addr key val .. | A addr balance code master .. | T from to amount ..
             class in ok revert err:<kind> unsupported fuel ; logs oldest first ; storage = newest binding per slot *)
 open Model
 open Wire
@@ -35,6 +35,8 @@ let alu_of_string = function
 let err_name = function
   | E_oog -> "oog" | E_gasoverflow -> "gasoverflow" | E_underflow -> "underflow" | E_overflow -> "overflow"
   | E_invalid -> "invalid" | E_jump -> "jump" | E_write -> "write" | E_retdata -> "retdata" | E_depth -> "depth"
+  | E_balance -> "balance" | E_collision -> "collision" | E_codesize -> "codesize" | E_invalidcode -> "invalidcode"
+  | E_codestore -> "codestore"
 
 let class_name = function
   | O_ok -> "ok" | O_revert -> "revert" | O_err e -> "err:" ^ err_name e | O_unsupported -> "unsupported" | O_fuel -> "fuel"
@@ -51,33 +53,44 @@ let fuel_for (gas : string) : nat =
   end;
   !cur_fuel
 
-let rec parse_codes = function
-  | "C" :: a :: c :: rest -> (z_of_hex a, bytes_of_hex c) :: parse_codes rest
+let rec parse_accts = function
+  | "A" :: a :: bal :: code :: m :: rest ->
+    (z_of_hex a, { a_bal = z_of_hex bal; a_code = bytes_of_hex code; a_master = bool_of_tok m }) :: parse_accts rest
   | [] -> []
-  | _ -> failwith "bad code section"
+  | _ -> failwith "bad account section"
 let rec parse_store = function
   | "S" :: a :: k :: v :: rest -> ((z_of_hex a, z_of_hex k), z_of_hex v) :: parse_store rest
   | [] -> []
   | _ -> failwith "bad storage section"
+let rec parse_hashes = function
+  | "H" :: p :: h :: rest -> (bytes_of_hex p, z_of_hex h) :: parse_hashes rest
+  | [] -> []
+  | _ -> failwith "bad hash section"
 
 let handle line =
   match split_on "|" (split_ws line) with
   | [ [ "ALU"; op; a; b; c ] ] -> hex_of_z (i_alu (alu_of_string op) (z_of_hex a) (z_of_hex b) (z_of_hex c))
-  | [ [ "RUN"; gas; static; origin; gasprice; coinbase; timestamp; number; difficulty; gaslimit; chainid; basefee; to_; input ];
-      codes; store ] ->
-    let e = { e_codes = parse_codes codes; e_origin = z_of_hex origin; e_gasprice = z_of_hex gasprice;
+  | [ [ "RUN"; gas; static; origin; gasprice; coinbase; timestamp; number; difficulty; gaslimit; chainid; basefee; to_; value;
+        input; mastertopic ];
+      accts; store; newaddrs; hashes ] ->
+    let e = { e_origin = z_of_hex origin; e_gasprice = z_of_hex gasprice;
               e_coinbase = z_of_hex coinbase; e_timestamp = z_of_hex timestamp; e_number = z_of_hex number;
               e_difficulty = z_of_hex difficulty; e_gaslimit = z_of_hex gaslimit; e_chainid = z_of_hex chainid;
-              e_basefee = z_of_hex basefee } in
-    let w = { w_store = parse_store store; w_logs = []; w_refund = Z0 } in
-    let r = call_top (fuel_for gas) e (bool_of_tok static) (z_of_hex to_) (bytes_of_hex input) (z_of_hex gas) w in
+              e_basefee = z_of_hex basefee; e_newaddrs = List.map z_of_hex newaddrs; e_hashes = parse_hashes hashes;
+              e_master_topic = z_of_hex mastertopic } in
+    let w = { w_accts = parse_accts accts; w_store = parse_store store; w_logs = []; w_refund = Z0; w_transfers = [];
+              w_suicided = [] } in
+    let r = call_top (fuel_for gas) e (bool_of_tok static) (z_of_hex to_) (z_of_hex value) (bytes_of_hex input) (z_of_hex gas) w in
     let logs = List.rev_map (fun l ->
         "L " ^ hex_of_z l.l_addr ^ " " ^
         (if l.l_topics = [] then "-" else String.concat "," (List.map hex_of_z l.l_topics)) ^ " " ^ hex_of_bytes l.l_data)
         r.r_world.w_logs in
     let st = List.map (fun ((a, k), v) -> "S " ^ hex_of_z a ^ " " ^ hex_of_z k ^ " " ^ hex_of_z v) (store_view r.r_world) in
+    let ac = List.map (fun (a, x) -> "A " ^ hex_of_z a ^ " " ^ hex_of_z x.a_bal ^ " " ^ hex_of_bytes x.a_code ^ " " ^ tok_of_bool x.a_master)
+        (acct_view r.r_world) in
+    let tr = List.rev_map (fun ((f, t), v) -> "T " ^ hex_of_z f ^ " " ^ hex_of_z t ^ " " ^ hex_of_z v) r.r_world.w_transfers in
     String.concat " " ([ class_name r.r_out; hex_of_bytes r.r_data; hex_of_z r.r_gas; hex_of_z r.r_world.w_refund; "|" ]
-                       @ logs @ [ "|" ] @ st)
+                       @ logs @ [ "|" ] @ st @ [ "|" ] @ ac @ [ "|" ] @ tr)
   | _ -> failwith "bad line"
 
 let () = iter_lines handle
